@@ -24,19 +24,18 @@ var allKinds = run.AllKinds
 // C01: every query is total.
 func C01(tier string) int {
 	c := report.NewCollector("C01")
-	cases := explore.Cases(explore.CaseOpts{Tier: tier, Prefixes: true, Edits: true, Seqs: true})
-	cases = append(cases, jsonCases(tier)...)
+	groups := explore.Groups(explore.CaseOpts{Tier: tier, Prefixes: true, Edits: true, Seqs: true})
+	groups = append(groups, func() []explore.Case { return jsonCases(tier) })
 	explore.HangHook = func(item string) {
 		c.Add(&report.Violation{Clause: "nontermination", Site: "watchdog", Detail: "a call made no progress for 120s: " + item, Check: "sweep"})
 	}
-	explore.Sweep(cases, c, explore.Deadline(tier), explore.Opts{
+	explore.SweepGroups(groups, c, explore.Deadline(tier), explore.Opts{
 		Kinds:   allKinds,
 		MidRune: true,
 		OnResult: func(cx *explore.Ctx, q run.Query, r run.Result) {
 			c01Result(cx, q, r)
 		},
 	})
-	c.Count("cases", int64(len(cases)))
 	return c.Finish(report.FinishOpts{
 		Tier: tier, Level: "exploration", EvalCounter: "calls",
 		Rule: "E1 sweep: catalogue schemas (structure templates + one-constraint bodies) x files (seeds, every byte prefix, single-token edits, all token strings <=k) x every byte offset incl. mid-rune x all entry points; non-trivial = call returned a non-empty value; distinct = distinct canonical results",
